@@ -258,6 +258,7 @@ func runC11(c *Ctx) {
 	R.Rule("C11.R1", "element table: for elementName a, area and link (specialised analyses), with a hardening option on and a surviving attribute, the href-discovery code is reached")
 	R.Rule("C11.R2", "presence tests are token-wise: every test of a rel value for nofollow/noreferrer/noopener is a call of a helper that returns true only across an equality between an element of strings.Fields(value) and the token; a substring test (strings.Contains) does not establish presence")
 	R.Rule("C11.R3", "must-add (typestate): on every path through the hardening block with an href found, when nofollow (resp. noreferrer) is required — requireX ∨ (external ∧ requireXFullyQualified) — a rel value carrying the token is produced before the function returns: by extending an existing rel value with \" token\", by a synthesised rel attribute whose constant value holds the token, or on the true edge of a token-wise presence test; every modified attribute copy is appended before the iteration ends; tokens are never glued to a previous one. The same for noopener whenever a target=\"_blank\" is found or produced")
+	R.Rule("C11.R5", "every href is noticed: an iteration of the href scan whose attribute key is href leaves the href-found flag set, whatever else it learns about the value (parse failures included)")
 	R.Rule("C11.R4", "the 'external link' flag is sticky and host-based: inside the href loop it is only ever set to true, on the edge url.Parse(href).Host != \"\"; the add-predicates are requireX ∨ (external ∧ requireXFullyQualified)")
 	R.Assume(TrustGo, "browsers' notion of 'has a host' for odd URLs (net/url vs WHATWG) is not decided", "which of the two attribute lists (rewritten copy vs original) is finally returned is not decided")
 	F := model.FindFields(c.P)
@@ -423,6 +424,57 @@ func c11Elem(c *Ctx, F *model.Fields, fn *ssa.Function, elem string, tok string,
 				}
 			}
 			R.Check(okS, "C11.R4", elem+":external-sticky", "(*Policy).sanitizeAttrs[elementName="+elem+"]: externalLink flag", c.P.Pos(lastPos(hrefLoop.Header)), "only ever set to true inside the href loop", "the external-link flag is "+why)
+			// R5: every href is noticed — an iteration of the scan whose attribute key is href leaves the href-found
+			// flag set, whatever else it finds out about the value (a value that fails to parse is still a link)
+			{
+				var keyAtoms []int
+				for ai, at := range A.Atoms {
+					if at.Kind != "eq" {
+						continue
+					}
+					if k, ok := constString(at.Y); !ok || k != "href" {
+						continue
+					}
+					if in, ok := at.X.(ssa.Instruction); ok && hrefLoop.Blocks[in.Block()] {
+						keyAtoms = append(keyAtoms, ai)
+					}
+				}
+				R.Role("C11.R5", "tests of the attribute key against href in the href scan ("+elem+")", len(keyAtoms), 1)
+				track := append([]int{}, keyAtoms...)
+				m := map[int]bool{}
+				A.Cond(hrefFound).Atoms(m)
+				for _, e := range hrefFound.Edges {
+					A.Cond(e).Atoms(m)
+				}
+				for k := range m {
+					track = append(track, k)
+				}
+				if q5, err := A.NewQuery(track); err != nil {
+					R.Unknown("C11.R5", elem+":href-noticed", "(*Policy).sanitizeAttrs[elementName="+elem+"]: href scan", c.P.Pos(lastPos(hrefLoop.Header)), err.Error())
+				} else if len(keyAtoms) > 0 {
+					q5.Barrier[hrefLoop.Header] = true
+					q5.Run(hrefLoop.Body, nil)
+					n5 := 0
+					for i, pred := range hrefLoop.Header.Preds {
+						if !hrefLoop.Blocks[pred] {
+							continue
+						}
+						for k, sc := range pred.Succs {
+							if sc != hrefLoop.Header {
+								continue
+							}
+							es := q5.EdgeState(pred, k)
+							if es == nil || pa.Empty(es) {
+								continue
+							}
+							n5++
+							ok5, cex := q5.Holds(es, pa.Implies(orAtoms(keyAtoms), A.Cond(hrefFound.Edges[i])))
+							R.Check(ok5, "C11.R5", fmt.Sprintf("%s:href-noticed:%s", elem, blockRoleA(A, pred)), "(*Policy).sanitizeAttrs[elementName="+elem+"]: end of an iteration of the href scan", c.P.Pos(lastPos(pred)), "href-found flag set whenever the key is href", "an attribute whose key is href can pass the scan without the href-found flag being set (the link is then not hardened at all): ["+cex+"]")
+						}
+					}
+					R.Role("C11.R5", "iteration ends of the href scan ("+elem+")", n5, 1)
+				}
+			}
 		}
 		// predicates
 		var req, reqFQ *pa.F
